@@ -36,7 +36,15 @@ def gen_case(tape, schema_knobs=None, doc_knobs=None, vars_knobs=None):
     c.schema = gen_schema(tape, schema_knobs)
     c.sdl = print_sdl(c.schema)
     c.doc = gen_document(c.schema, tape, doc_knobs)
+    if tape.preset and "@doc" in tape.preset:
+        # an explicit (minimised) document model recorded in a replay file replaces the generated one
+        from simv.model.document import doc_from_json
+        probes = c.doc.probes
+        c.doc = doc_from_json(tape.preset["@doc"])
+        c.doc.probes = probes
     c.layout = tape.draw("doc", 4)
+    if tape.preset and "@doc" in tape.preset:
+        c.layout = 1
     c.text = print_document(c.doc, c.layout)
     ops = c.doc.operations()
     t = tape.sub("vars")
@@ -44,6 +52,14 @@ def gen_case(tape, schema_knobs=None, doc_knobs=None, vars_knobs=None):
     c.op = op
     c.op_name = op.name if (len(ops) > 1 or (op.name and t.chance(50))) else None
     c.variables = gen_variables(c.schema, tape, op, **(vars_knobs or {}))
+    if tape.preset and "@doc" in tape.preset:
+        ops = c.doc.operations()
+        op = next((o for o in ops if o.name == c.op_name), ops[0]) if c.op_name else ops[0]
+        c.op = op
+        if len(ops) > 1 and not c.op_name:
+            c.op_name = op.name
+        if len(ops) == 1 and c.op_name and c.op_name != op.name:
+            c.op_name = op.name
     return c
 
 
